@@ -137,6 +137,7 @@ type executor struct {
 	api   *api.DatabaseAPI
 	steps []StepRec
 	open  map[string]bool
+	mark  func(msg []byte) // tells the parent which message is about to be handled
 }
 
 const dbName = "tdb"
@@ -254,6 +255,9 @@ func (x *executor) step(kind string, msg []byte, ref int) bool {
 	x.rec.mu.Unlock()
 	if req.Kind == kCancel {
 		sr.HadSub = x.api.VerifHasSub(req.OpID)
+	}
+	if x.mark != nil {
+		x.mark(msg)
 	}
 	if x.handle(msg) {
 		sr.HandleStuck = true
@@ -444,11 +448,7 @@ func (x *executor) runBulk(j *Job) (res Result) {
 				r := parseReply(events[0].Data)
 				if r.OK && r.Type == "error" {
 					good = true
-					cl := "malformed:error/own-opid"
-					if r.OpID == "" {
-						cl = "malformed:error/empty-opid"
-					}
-					classes[cl]++
+					classes["malformed:error"+malformedClass(classify(msg), r)]++
 				}
 			}
 			if !good {
@@ -495,8 +495,9 @@ func (x *executor) runBulk(j *Job) (res Result) {
 }
 
 type childLine struct {
-	T   string  `json:"t"` // B = begin, R = result
+	T   string  `json:"t"` // B = begin of a job, S = a message is about to be handled, R = result
 	ID  int     `json:"id"`
+	Msg []byte  `json:"msg,omitempty"`
 	Res *Result `json:"res,omitempty"`
 }
 
@@ -518,6 +519,11 @@ func childMain() {
 		}
 		_ = enc.Encode(childLine{T: "B", ID: j.ID})
 		_ = out.Flush()
+		id := j.ID
+		x.mark = func(msg []byte) {
+			_ = enc.Encode(childLine{T: "S", ID: id, Msg: msg})
+			_ = out.Flush()
+		}
 		var res Result
 		if j.Bulk != nil {
 			res = x.runBulk(&j)
